@@ -6,7 +6,7 @@ export GOFLAGS=-mod=mod GOPROXY=off GOSUMDB=off GOTOOLCHAIN=local CGO_ENABLED=0
 mkdir -p out evidence
 (cd extract && go build -o bin/extract .)
 ./extract/bin/extract -repo /repo -lean lean/TarsModel/Generated/Consts.lean -fp out/fingerprints.json || true
-(cd lean && lake build TarsModel tarsmodel)
+(cd lean && lake build TarsModel $(grep -A1 'lean_exe' lakefile.toml | sed -n 's/^name = "\(.*\)"/\1/p'))
 cp /repo/go.sum harness/go.sum
 (cd harness && for d in cmd/*/; do n=$(basename "$d"); go build -tags verif -o "bin/$n" "./cmd/$n"; done)
 echo setup-ok
